@@ -2585,7 +2585,7 @@ def _fold_isinstance(model, v, t):
         ty = None
         if isinstance(v, App) and v.name in ('fstring', 'fmt', 'str.format', 'str') or (
                 isinstance(v, Const) and isinstance(v.v, str)) or (
-                isinstance(v, Obj) and v.cls == 'str' and v.ci is None):
+                isinstance(v, Obj) and v.cls == 'str' and v.ci is None and getattr(v, 'typed', True) is not False):
             ty = {'str'}
         elif isinstance(v, Tup) and v.kind in ('list', 'tuple'):
             ty = {v.kind}
